@@ -43,12 +43,17 @@ def _mat(name):
     elif name == "S":
         m = np.diag([2.0, 2.0, 2.0, 1.0])
         m[:3, 3] = [0, 0, 1]
+    elif name in ("L", "Le"):
+        # two placements far from the origin that differ by 2e-6 of their size (5 mm at 2.5 km):
+        # an update from one to the other is small relative to the entries but not to any absolute tolerance
+        m = _rot(1, 1)
+        m[:3, 3] = [2500.0 if name == "L" else 2500.005, 0, -4.0]
     else:
         raise KeyError(name)
     return m
 
 
-MATS = {n: _mat(n) for n in ["M1", "M2", "S"]}
+MATS = {n: _mat(n) for n in ["M1", "M2", "S", "L", "Le"]}
 GEOM = {"a": "ga", "b": "gb"}  # geometry attached by updates of these children
 
 
@@ -194,11 +199,14 @@ class System:
             acts.append(["get", x, y])
         acts.append(["get", UNKNOWN, "world"])
         acts.append(["get", "a", UNKNOWN])
+        # the default source frame: get(frame_to) / graph[frame_to] mean "from the current base frame"
+        for x in self.frames:
+            acts.append(["getdefault", x])
         acts += [["nodes"], ["flat"], ["edgelist"], ["copy"]]
         return acts
 
     def cost(self, a):
-        if a[0] in ("get", "nodes", "flat", "edgelist", "copy"):
+        if a[0] in ("get", "getdefault", "nodes", "flat", "edgelist", "copy"):
             return 1
         return 0
 
@@ -237,6 +245,8 @@ class System:
             if op == "get":
                 # get(frame_to=y, frame_from=x) is T(x, y)
                 return _obs_get(g, a[1], a[2])
+            if op == "getdefault":
+                return _obs_get_default(g, a[1])
             if op == "nodes":
                 return sorted(str(n) for n in g.nodes)
             if op == "flat":
@@ -311,7 +321,9 @@ class System:
         out = []
         for order in (0, 1):
             ctx = self.build(start, hist)
-            v = _invariant(ctx, self.frames, reverse=bool(order))
+            # always over the full frame list (not the action alphabet of this search): a replay file then
+            # reproduces the same first divergence whatever search found it
+            v = _invariant(ctx, FRAMES, reverse=bool(order))
             if v:
                 out.extend(v)
                 break
@@ -325,6 +337,17 @@ class System:
 def _obs_get(g, frm, to):
     try:
         m, geom = g.get(frame_to=to, frame_from=frm)
+        return ("ok", np.array(m), geom)
+    except Exception as e:
+        return ("raises", type(e).__name__)
+
+
+def _obs_get_default(g, to):
+    try:
+        m, geom = g.get(to)
+        m2, geom2 = g[to]
+        if geom2 != geom or np.shape(m2) != np.shape(m) or not (np.asarray(m2) == np.asarray(m)).all():
+            return ("inconsistent", "get(x) and graph[x] differ")
         return ("ok", np.array(m), geom)
     except Exception as e:
         return ("raises", type(e).__name__)
@@ -370,6 +393,8 @@ def _classify(hist):
                 del seen_parent[c]
         elif a[0] == "get":
             k = "get-unknown" if UNKNOWN in a[1:] else "get"
+        elif a[0] == "getdefault":
+            k = "get"
         else:
             k = a[0]
         if k not in kinds:
@@ -422,6 +447,19 @@ def _invariant(ctx, frames, reverse=False):
                 )
         if viol:
             return viol
+    # the default source frame is the *current* base frame
+    for y in (frames[::-1] if reverse else frames):
+        want = table.get((ref.base, y))
+        o = _obs_get_default(g, y)
+        if o[0] == "inconsistent":
+            return [("get(x) and graph[x] disagree", {"to": y})]
+        if want is None:
+            if o[0] == "ok":
+                return [("get(default frame) answers for a frame that is not connected to the base frame", {"to": y, "got": o[1]})]
+        elif o[0] != "ok":
+            return [("get(default frame) raises for a frame connected to the base frame", {"to": y, "got": o[1]})]
+        elif not _close(o[1], want):
+            return [("get(default frame) is not the transform from the current base frame", {"to": y, "base": ref.base, "got": o[1], "want": want})]
     # algebraic consequences on the answers actually returned
     for x, y in pairs:
         if got[(x, y)][0] == "ok" and got.get((y, x), ("no",))[0] == "ok":
@@ -529,6 +567,9 @@ def _forms_worker(task):
                 forms = {
                     "matrix": dict(matrix=want.copy()),
                     "quaternion": dict(quaternion=q.copy()),
+                    # a quaternion need not be normalised: it describes the rotation of its direction
+                    "quaternion (not unit)": dict(quaternion=q * 3.0),
+                    "quaternion (negated, short)": dict(quaternion=q * -0.25),
                     "axis-angle": dict(axis=list(ax), angle=float(ang)),
                 }
                 if abs(ang) < 1e-15:
@@ -589,18 +630,22 @@ def main(run):
     # deviation-bounded deeper search (deviation = a query / export / copy action)
     run.log(f"deviation-bounded search depth {d_depth}, <= {d_dev} query deviations")
     r1 = explorer.bfs(System(), run, max_depth=d_depth, max_dev=d_dev)
+    # updates between two nearly equal placements far from the origin must take effect
+    run.log("search over nearly equal matrices (L, Le)")
+    r2 = explorer.bfs(System(frames=["world", "a", "b"], mats=("L", "Le")), run, max_depth=3 if tier == "quick" else 4, max_dev=1)
     tallies = harness.pmap(_forms_worker, forms_tasks(tier))
     run.merge(tallies)
     hist_sample = [
         {"start": "empty", "history": [["update", "a", "world", "M1"], ["update", "b", "a", "M2"], ["get", "world", "b"], ["update", "b", "world", "M1"], ["get", "a", "b"]]},
     ]
     cov = {
-        "states": r0["states"] + r1["states"],
-        "transitions": r0["transitions"] + r1["transitions"],
-        "traces_validated_against_impl": r0["transitions"] + r1["transitions"],
+        "states": r0["states"] + r1["states"] + r2["states"],
+        "transitions": r0["transitions"] + r1["transitions"] + r2["transitions"],
+        "traces_validated_against_impl": r0["transitions"] + r1["transitions"] + r2["transitions"],
         "samples": hist_sample + run.tally.samples[:2],
         "full_alphabet_search": r0,
         "deviation_bounded_search": dict(r1, max_deviations=d_dev),
+        "near_equal_matrix_search": dict(r2, max_deviations=1),
         "forms_evaluations": run.tally.evaluations,
         "exhaustive": not (r0["capped"] or r1["capped"]),
         "rule": "state = history of update/setitem/remove/base/rmgeom/get/nodes/flat/edgelist/copy over frames world,a,b,c and matrices M1,M2; merged on canonical (impl forest, caches, model forest); every transition target is checked on two fresh replays (forward / reversed query order) against a dictionary reference forest; every history is replayed on the real SceneGraph",
